@@ -84,6 +84,26 @@ fn edits_for(env: &Env, base: &Ps, l: usize, flip_range: (usize, usize)) -> Vec<
             }));
         }
     }
+    for k in 0..r {
+        for (li, lt) in letters.iter().enumerate() {
+            let lt = lt.clone();
+            v.push(ed(format!("repeat idx[{k}] with letter{li} as an extra disclosed message"), "disclosure-repeat-index", li == 1, move |s: &Ps| {
+                if k >= s.idx.len() || s.idx.len() != s.dmsgs.len() { return None; }
+                let mut i = s.idx.clone(); let mut m = s.dmsgs.clone(); let x = i[k]; i.insert(k + 1, x); m.insert(k + 1, lt.clone()); Some(Ps { idx: i, dmsgs: m, ..s.clone() })
+            }));
+            let lt2 = letters[li].clone();
+            v.push(ed(format!("repeat idx[{k}] with letter{li} BEFORE the genuine message"), "disclosure-repeat-index", false, move |s: &Ps| {
+                if k >= s.idx.len() || s.idx.len() != s.dmsgs.len() { return None; }
+                let mut i = s.idx.clone(); let mut m = s.dmsgs.clone(); let x = i[k]; i.insert(k, x); m.insert(k, lt2.clone()); Some(Ps { idx: i, dmsgs: m, ..s.clone() })
+            }));
+        }
+        for k2 in (k + 1)..r {
+            v.push(ed(format!("swap disclosures #{k} and #{k2} (message and index together)"), "disclosure-swap-pairs", false, move |s: &Ps| {
+                if k2 >= s.idx.len() || k2 >= s.dmsgs.len() { return None; }
+                let mut i = s.idx.clone(); let mut m = s.dmsgs.clone(); i.swap(k, k2); m.swap(k, k2); Some(Ps { idx: i, dmsgs: m, ..s.clone() })
+            }));
+        }
+    }
     // add a disclosure (new index, letter) keeping the list ascending
     for val in 0..=(l + 1) {
         for (li, lt) in letters.iter().enumerate() {
@@ -166,7 +186,7 @@ pub fn run(env: &Env) {
             }
         }
     }
-    env.ctx.set_rule("(A) roots = honest proofs over suites x L in 0..=4 (thorough 0..=5) x ALL disclosure sets x {(none,none),(16B,16B)} header/ph; from each root every single edit: disclosed message bit flips / replace / byte truncate / byte extend / swap / drop / insert; each index := every value in 0..=L+1, drop, duplicate, swap; add a disclosure at every free position; header and ph := every alphabet element, bit flips, extend, truncate; pk := every other key; remove each m^_j; append zero/copy/fresh scalar; truncate/extend by 32 and 64 octets; every single-bit flip of every proof octet (quick: 8 proofs; thorough: all); other suite; blind interface. Thorough: all ordered pairs of structural edits. Index lists that are not strictly ascending are outside the drafts' precondition: explored for crashes only, no accept/reject verdict. (C) forgery families from public data only: Abar,Bbar in 6 points x D in 9 points x response slopes {0,1,-1}^(3+U) (+ -1/k when D = k*Bv), U in {0,1}, through from_bytes and through serde. State = edited statement / forged proof; non-trivial = the real verifier ran and its verdict was compared with the semantic (and reference) verdict.");
+    env.ctx.set_rule("(A) roots = honest proofs over suites x L in 0..=4 (thorough 0..=5) x ALL disclosure sets x {(none,none),(16B,16B)} header/ph; from each root every single edit: disclosed message bit flips / replace / byte truncate / byte extend / swap / drop / insert; each index := every value in 0..=L+1, drop, duplicate, swap; add a disclosure at every free position; header and ph := every alphabet element, bit flips, extend, truncate; pk := every other key; remove each m^_j; append zero/copy/fresh scalar; truncate/extend by 32 and 64 octets; every single-bit flip of every proof octet (quick: 8 proofs; thorough: all); other suite; blind interface. Thorough: all ordered pairs of structural edits. Index lists that are not strictly ascending (swapped indexes, repeated indexes with another message, swapped pairs) are outside the drafts' precondition: the verifier may refuse them, but a VIOLATION is raised when it accepts a claim containing a (position, message) pair that the proof does not disclose. (C) forgery families from public data only: Abar,Bbar in 6 points x D in 9 points x response slopes {0,1,-1}^(3+U) (+ -1/k when D = k*Bv), U in {0,1}, through from_bytes and through serde. State = edited statement / forged proof; non-trivial = the real verifier ran and its verdict was compared with the semantic (and reference) verdict.");
     env.ctx.extra("deviation_bound_completed", json!(bound));
     par_for(&roots, |_, r| {
         if !env.want(&r.id) || env.ctx.out_of_time() { return; }
@@ -188,10 +208,18 @@ pub fn run(env: &Env) {
             let cls = if v.classes.is_empty() { "honest".to_string() } else { v.classes.join("+") };
             let det = json!({"base": det0, "edits": v.path, "proof": hex::encode(&v.state.proof), "idx": v.state.idx, "dmsgs": hexv(&v.state.dmsgs)});
             if !v.state.in_contract() {
-                // outside the precondition (unsorted / duplicated index list): only "no panic" is demanded
+                // Index list not strictly ascending (outside the drafts' precondition). The verifier may refuse such a call, but it must
+                // never ACCEPT a claim that contains a (position, message) pair which is not a disclosed pair of the proof: accepting
+                // [(2, m0), (0, m2)] for a proof of [(0, m0), (2, m2)], or [(0, m0), (2, m2), (2, FAKE)], certifies something never signed.
                 env.ctx.step();
-                if let O::Panic(p) = &got { env.ctx.violation(&format!("C04:out-of-contract:{}:panic", cls), &format!("verifier panicked: {}", p), env.case(&r.id, det)); }
-                env.ctx.class("out-of-contract (crash-only)");
+                let true_pairs: Vec<(usize, &Vec<u8>)> = base.idx.iter().copied().zip(base.dmsgs.iter()).collect();
+                let claim_true = v.state.dmsgs.len() <= v.state.idx.len() && v.state.idx.iter().copied().zip(v.state.dmsgs.iter()).all(|p| true_pairs.contains(&p)) && v.state.pk == base.pk && v.state.header == base.header && v.state.ph == base.ph && v.state.proof == base.proof && v.state.suite == base.suite && v.state.blind_iface == base.blind_iface;
+                match &got {
+                    O::Panic(p) => env.ctx.violation(&format!("C04:unordered-index-list:{}:panic", cls), &format!("verifier panicked: {}", p), env.case(&r.id, det)),
+                    O::Ok(_) if !claim_true => env.ctx.violation(&format!("C04:unordered-index-list:{}:accepted", cls), &format!("proof_verify accepted a claim with a (position, message) pair that is not disclosed by the proof, after [{}]", v.path.join("; ")), env.case(&r.id, det)),
+                    _ => {}
+                }
+                env.ctx.class(&format!("unordered-index-list:{}", got.kind()));
                 env.ctx.trace();
                 return;
             }
